@@ -3,6 +3,8 @@
 S1  Coq: codec round trips, wf_dbb/wf_imageb soundness, reach_disjoint (coq/Props/C10.v).
 S2  XXH3-128 model vs redb::verif::xxh3_128 on every length class; native page cutting of the
     command-line reader vs the extracted chunks_of on a sample of images.
+S2c the extracted writer model (Format/TreeWriter.v encode_tree) applied to the logical trees of committed
+    tables reproduces the crate's page bytes up to the covered length and the root header, byte for byte.
 S3  every image the real crate leaves on storage after a durable commit / compaction / clean close is
     read by the extracted Coq reader (fmt): it must be accepted by wf_dbb and its decoded user tables
     must equal what the harness' sorted-map spec says.
@@ -207,6 +209,55 @@ def check_images(ctx, exe, imgdir, cov, key_prefix="c10"):
     return len(index), bad
 
 
+def writer_correspondence(ctx, exe, cov):
+    """S2c: the extracted WRITER model (encode_tree: page layouts + bottom-up checksums + root header) applied to the
+    logical trees of committed tables (Table::verif_shape + contents, page numbers as the crate assigned them)
+    must reproduce byte for byte the covered bytes of those pages in the image and the root BtreeHeader in the
+    catalog.  Returns (ok, detail)."""
+    n = 36 if ctx.quick else 400
+    tdir = os.path.join(ctx.workdir, "trees")
+    rc, out = ctx.harness("c10", ["trees", n, tdir], timeout=1500)
+    if rc != 0:
+        return False, "harness c10 trees failed rc=%s: %s" % (rc, (out or "")[-1500:])
+    summary = out.strip().split("\n")[-1]
+    cov["writer_tree_distribution"] = summary
+    m = re.search(r"harness_errors=(\d+)", summary)
+    if m and int(m.group(1)) > 0:
+        return False, {"what": "tree harness hit an unexpected crate error or panic", "summary": summary}
+    index = [l.split(" ") for l in open(os.path.join(tdir, "trees.txt")).read().split("\n") if l]
+    cmds = ["treecmp %s %s" % (os.path.join(tdir, e[0]), os.path.join(tdir, e[1])) for e in index]
+    res, errs = run_batch(exe, cmds, ctx.workdir, jobs=6)
+    tot = {"trees": 0, "pages_equal": 0, "pages_differ": 0, "bytes": 0, "root_differs": 0, "outside_limits": 0,
+           "multi_level": 0, "empty": 0}
+    first = None
+    for e, cmd in zip(index, cmds):
+        lines = res.get(cmd) or []
+        head = [l for l in lines if l.startswith("treecmp name=")]
+        if not head:
+            first = first or {"tree": e[0], "image": e[1], "output": lines[:5] + errs[:2]}
+            tot["pages_differ"] += 1
+            continue
+        f = dict(x.split("=", 1) for x in head[0].split(" ")[1:])
+        tot["trees"] += 1
+        tot["pages_equal"] += int(f["pages_equal"])
+        tot["pages_differ"] += int(f["pages_differ"])
+        tot["bytes"] += int(f["bytes"])
+        tot["empty"] += int(f["empty"])
+        tot["multi_level"] += 1 if int(f.get("height", 0)) >= 1 else 0
+        if f["root_ok"] != "1" or f["widths_ok"] != "1":
+            tot["root_differs"] += 1
+        if f["limits"] != "1" or f["placed"] != "1":
+            tot["outside_limits"] += 1
+        if (f["pages_differ"] != "0" or f["root_ok"] != "1" or f["widths_ok"] != "1") and first is None:
+            first = {"tree": os.path.join(tdir, e[0]), "image": os.path.join(tdir, e[1]), "summary": head[0],
+                     "diffs": [l[:400] for l in lines if l.startswith("treediff")][:6],
+                     "how": "VERIF_SEED=%d harness c10 trees %d <dir>; fmt_driver treecmp <tree> <image>" % (ctx.seed, n)}
+    cov["writer_correspondence"] = tot
+    if first is not None:
+        return False, {"what": "extracted writer model (encode_tree) and the crate's pages differ", "first": first, "totals": tot}
+    return True, None
+
+
 def replay(ctx, exe):
     """./check Cxx --replay replays/<file>.json : run the reader again on the saved failing image"""
     import json
@@ -285,6 +336,11 @@ def run(ctx):
         cov["pure_vs_native_images"] = len(small)
         if fast != pure:
             s2_ok, detail = False, "fmt native page cutting and extracted chunks_of give different dumps on " + ",".join(small)
+    # ---- S2c: writer model vs LeafBuilder / BranchBuilder / finalize_dirty_checksums, byte for byte
+    if s2_ok:
+        okw, dw = writer_correspondence(ctx, exe, cov)
+        if not okw:
+            s2_ok, detail = False, dw
     cov["rule"] = ("one evaluation = one storage image taken after the final sync of a durable commit, after compaction or after clean "
                    "close, accepted by the extracted wf_dbb AND decoding to the spec's contents; non-trivial = distinct header slots "
                    "and crossing at least one of: multi-level tree, multimap subtree, multi-region, high-order page, persistent savepoint, multi-level catalog")
@@ -295,5 +351,5 @@ def run(ctx):
                            "docs/design.md + codecs as the meaning of 'the documented file format'"]
     return ctx.finish("proof", cov,
                       assumptions=["key order of a table is checked only when its stored type name has a comparator in Format/KeyCmp.v (others are counted in path_markers)",
-                                   "'every history' is validated per produced image, not proved (no writer model yet)"],
+                                   "model_images_wf is proved for the WRITER MODEL (single normal table, programs of insert/remove/pop from the empty table, side conditions db1_okb on the input); that redb's writer is that model is validated per run (byte-for-byte page comparison on sampled committed trees + every image accepted), multimap/system tables/savepoints only per image"],
                       s2_ok=s2_ok, s2_detail=detail)
